@@ -18,7 +18,7 @@ for d in /verif/seeded/$prop/*/; do
   /verif/selftest/scratch.sh >/dev/null
   ( cd "$S/repo" && patch -p1 -s < "$d/patch.diff" ) || { echo "SEED $prop/$k: patch does not apply to the current tree"; fail=$((fail+1)); continue; }
   out=$(mktemp -d /var/tmp/verif-out.XXXXXX)
-  /verif/bin/ovcheck -repo "$S/repo" -verif /verif -out "$out" -tier quick "$prop" > "$out/log" 2>&1; rc=$?
+  ${OVCHECK:-/verif/bin/ovcheck} -repo "$S/repo" -verif ${OVVERIF:-/verif} -out "$out" -tier quick "$prop" > "$out/log" 2>&1; rc=$?
   n=$((n+1))
   if [ $rc -eq 1 ] && grep -q "VIOLATION property=$prop" "$out/log"; then
     echo "SEED $prop/$k: CAUGHT ($(grep -m1 -o 'rule=[^ ]* instance=[^=]*site' "$out/log" | sed 's/ site$//' | cut -c1-160))"
